@@ -153,6 +153,9 @@ func distinctFuncs(funcs uint32, n int) []int {
 }
 
 func runC14() *RunResult {
+	if rn(4) == 3 {
+		return runC14Operand()
+	}
 	w := &World{prop: "C14"}
 	dg := docGen{useNumber: chance(25)}
 	trap := chance(20)
@@ -325,4 +328,228 @@ func runC14() *RunResult {
 		res.Probes["multi-valued-prefix"]++
 	}
 	return res
+}
+
+// runC14Operand: a function inside a filter operand.  The filter is a single comparison or
+// existence test, so every member must be passed to the function exactly once, in member
+// order, with what the operand's path selects for that member (a $-rooted operand: exactly one
+// call per evaluation of the filter).
+func runC14Operand() *RunResult {
+	w := &World{prop: "C14"}
+	dg := docGen{useNumber: chance(25)}
+	cfg := CfgSpec{Present: true, Funcs: 1<<nFuncs - 1, Accessor: chance(30), Variant: rn(3)}
+	doc := newDoc(dg.doc(false))
+	w.docs = []*Doc{doc}
+	res0 := &RunResult{Probes: map[string]int{}, Faults: map[string]int{}}
+
+	// single-valued, document-aware prefix ending at a container
+	prefix := "$"
+	cur := doc.Val
+	for i := rn(3); i > 0; i-- {
+		switch t := cur.(type) {
+		case map[string]interface{}:
+			keys := sortedKeys(t)
+			if len(keys) == 0 {
+				i = 0
+				continue
+			}
+			k := keys[rn(len(keys))]
+			switch t[k].(type) {
+			case map[string]interface{}, []interface{}:
+				prefix += nameStep(k)
+				cur = t[k]
+			}
+		case []interface{}:
+			if len(t) == 0 {
+				i = 0
+				continue
+			}
+			j := rn(len(t))
+			switch t[j].(type) {
+			case map[string]interface{}, []interface{}:
+				prefix += "[" + itoa(j) + "]"
+				cur = t[j]
+			}
+		}
+	}
+	members := membersOf(cur)
+	// operand path below '@' (or '$'): names that some member has
+	rooted := chance(20)
+	suffix := ""
+	if chance(70) {
+		var keys []string
+		src := members
+		if rooted {
+			src = []interface{}{doc.Val}
+		}
+		for _, m := range src {
+			if mm, ok := m.(map[string]interface{}); ok {
+				for _, k := range sortedKeys(mm) {
+					if dotOK(k) {
+						keys = append(keys, k)
+					}
+				}
+			}
+		}
+		if len(keys) > 0 {
+			suffix = "." + keys[rn(len(keys))]
+		} else {
+			suffix = ".a"
+		}
+	}
+	f := rn(nFuncs)
+	root := "@"
+	if rooted {
+		root = "$"
+	}
+	operand := root + suffix + "." + funcNames[f] + "()"
+	var query string
+	switch rn(4) {
+	case 0:
+		query = operand
+	case 1:
+		query = "!" + operand
+	default:
+		op := pick([]string{"==", "!=", "<", ">=", "=="})
+		lit := num()
+		if op == "==" || op == "!=" {
+			lit = literal()
+		}
+		if chance(30) && (op == "==" || op == "!=" || !rooted) {
+			query = lit + sp() + mirror(op) + sp() + operand
+		} else {
+			query = operand + sp() + op + sp() + lit
+		}
+		if rooted && (op == "<" || op == ">=") {
+			// a $-rooted operand is literal-like: ordering against a literal would recurse for ever (C02)
+			query = operand + " == " + literal()
+		}
+	}
+	text := prefix + "[?(" + query + ")]"
+	p := &PathSpec{Text: text, Prefix: prefix}
+
+	simrt.SetMode(simrt.ModeSolo)
+	shared := soloParse(p, cfg)
+	// what the operand's path selects for each member, obtained from the library in plain mode
+	type sel struct {
+		ok bool
+		v  interface{}
+	}
+	var sels []sel
+	opFn := soloParse(&PathSpec{Text: "$" + suffix}, CfgSpec{})
+	srcs := members
+	if rooted {
+		srcs = []interface{}{doc.Val}
+	}
+	for _, m := range srcs {
+		if opFn.Fn == nil {
+			sels = append(sels, sel{})
+			continue
+		}
+		simrt.OpStart()
+		r, _ := safeCall(opFn.Fn, m)
+		if len(r) == 1 {
+			sels = append(sels, sel{true, r[0]})
+		} else {
+			sels = append(sels, sel{})
+		}
+	}
+	simrt.SetMode(simrt.ModeOff)
+	if shared.Fn == nil || opFn.Fn == nil {
+		res0.Sample = []string{"unparsable: " + p.Text + " => " + shared.Out}
+		return res0
+	}
+	isContainer := false
+	switch cur.(type) {
+	case map[string]interface{}, []interface{}:
+		isContainer = true
+	}
+	if !isContainer || (!rooted && len(members) == 0) {
+		// not a container (the filter step fails before looking at its operand), or no member
+		// to evaluate a '@' operand for; a '$' operand is evaluated once per container, even an
+		// empty one
+		sels = nil
+	}
+	w.shared = []*ParsedFn{shared}
+	// expected calls (fault-free): one per member for which the operand path selects a value
+	var args []interface{}
+	for _, s := range sels {
+		if !s.ok {
+			continue
+		}
+		a := s.v
+		if isAggregate(f) {
+			if arr, ok := s.v.([]interface{}); ok {
+				a = listArg(arr)
+			} else {
+				a = []interface{}{s.v}
+			}
+		}
+		args = append(args, a)
+	}
+	n := len(args)
+	var plans []uint64
+	if n <= 8 {
+		for m := 0; m < 1<<uint(n); m++ {
+			plans = append(plans, uint64(m))
+		}
+	} else {
+		plans = []uint64{0, ^uint64(0), uint64(rn(1 << 16)), 1 << uint(rn(8))}
+	}
+	nt := 1
+	if chance(40) {
+		nt = 2 + rn(3)
+	}
+	for ti := 0; ti < nt; ti++ {
+		w.tasks = append(w.tasks, &Task{id: ti})
+	}
+	for i, mask := range plans {
+		mask := mask
+		var faults [nFuncs]uint64
+		faults[f] = mask
+		var calls []CallRec
+		for k, a := range args {
+			calls = append(calls, CallRec{Func: f, Variant: cfg.Variant, Arg: canon(a), Fail: k < 64 && mask&(1<<uint(k)) != 0})
+		}
+		expLog := perFuncLog(calls)
+		o := &Op{Kind: opCustom, Path: p, Cfg: cfg, Faults: faults}
+		o.Do = func(t *Task, o *Op) {
+			_, out := safeCall(shared.Fn, doc.Val)
+			o.Got, o.GotLog = out, perFuncLog(t.rec.Calls)
+			if simrt.Aborted() != 0 {
+				return
+			}
+			t.judged++
+			if o.GotLog != expLog {
+				t.fail("C14:call-protocol-in-filter-operand", p.Text, fmt.Sprintf("%v\n  document %s\n  calls made     %s\n  calls expected %s (one per member for which %q selects a value, in member order)", o, clip(doc.Snap, 300), clip(o.GotLog, 400), clip(expLog, 400), root+suffix))
+				return
+			}
+			if mask == 0 && strings.Contains(out, "ErrorFunctionFailed") {
+				t.fail("C14:function-failed-without-failing-function", p.Text, fmt.Sprintf("%v", o))
+			}
+		}
+		w.tasks[i%nt].ops = append(w.tasks[i%nt].ops, o)
+	}
+	drawSchedule(nt, &w.cfg)
+	res := w.run()
+	res.Probes["function-inside-filter-operand-case"]++
+	if n > 0 {
+		res.Cases = []uint64{fnv(p.Text + "|" + cfg.String() + "|" + doc.Snap)}
+		res.Probes["fault-plans-executed"] += len(plans)
+	}
+	return res
+}
+
+func mirror(op string) string {
+	switch op {
+	case "<":
+		return ">"
+	case ">":
+		return "<"
+	case "<=":
+		return ">="
+	case ">=":
+		return "<="
+	}
+	return op
 }
